@@ -1064,7 +1064,7 @@ class Interp(ExprMixin):
         names = [(x[1], x[2]) for x in n.imported_names]
         if nm == "libc.math":
             for name, asn in names:
-                fr.module.ns[asn or name] = self.LIBC[name]
+                fr.module.ns[asn or name] = self.LIBC[name] if name in self.LIBC else _sym.s_libm(name)
             return
         if nm in ("vector", "bioscrape.vector"):
             fr.module.ns["vector"] = VectorFactory()
